@@ -15,8 +15,9 @@
     [tagged links 0 ins]: all records of all inputs, re-linked, each tagged
     with the index of its input. *)
 From Coq Require Import ZArith List Bool Permutation Sorted.
-From Hts Require Import Base.Prim Model.Merger Proofs.MergeRun Proofs.Merger Proofs.MergerTop
-     Proofs.MergerHeap Proofs.MergerOrders Proofs.MergerHeapOrd Proofs.MergerFinal.
+From Hts Require Import Base.Prim Model.Header Model.HeaderRun Proofs.HeaderWorld Proofs.HeaderMerge Proofs.HeaderHist.
+From Hts Require Import Model.Merger Proofs.MergeRun Proofs.Merger Proofs.MergerTop
+     Proofs.MergerHeap Proofs.MergerOrders Proofs.MergerHeapOrd Proofs.MergerFinal Proofs.MergerLinks.
 Import ListNotations.
 Open Scope Z_scope.
 
@@ -61,9 +62,50 @@ Theorem merge_stable_per_input :
 Proof. exact stable_gen. Qed.
 Print Assumptions merge_stable_per_input.
 
-(** Every returned record is a record of the input it is attributed to, passed
-    through reassignReference exactly once ... *)
+(** Re-linking, with sam.MergeHeaders as modelled and proved for C07
+    (Model/Header.v, Props/C07.v merge_links).  [w] is a world of headers and
+    reference objects satisfying the header invariant; [s0 :: srcs] are the
+    source headers; MergeHeaders succeeds with merged header number
+    [length (w_h w)] in world [w'] and link table [hl]; the records of input j
+    refer to references of source header j (bam.Reader rejects anything else).
+    Then NewMerger + Read with that link table returns, and every returned
+    record is a record of the input it is attributed to with name, position and
+    identity unchanged, whose reference and mate reference have become
+    ([ref_belongs]) the id of a reference that the merged header owns and lists
+    at that id and that has the name and length the source header gave it (a
+    nil reference stays nil). *)
 Theorem merge_relinked :
+  forall w s0 srcs w' hl lessf ins,
+    WInv w -> (s0 < length (w_h w))%nat -> (forall s, In s srcs -> (s < length (w_h w))%nat) ->
+    Header.merge_headers w s0 srcs = Ok (w', 0, hl) ->
+    inputs_fit w (s0 :: srcs) ins ->
+    exists outs e mf,
+      run_merge goheap (Some (links_of w' hl)) lessf ins = Ok (outs, e, mf) /\
+      forall i r, In (i, r) outs ->
+        exists j s hs inp r0,
+          i = Z.of_nat j /\ nth_error (s0 :: srcs) j = Some s /\ nth_error (w_h w) s = Some hs /\
+          nth_error ins j = Some inp /\ In r0 (i_recs inp) /\
+          r_uid r = r_uid r0 /\ r_name r = r_name r0 /\ r_pos r = r_pos r0 /\ r_key r = r_key r0 /\
+          ref_belongs w w' (length (w_h w)) hs (r_ref r0) (r_ref r) /\
+          ref_belongs w w' (length (w_h w)) hs (r_mref r0) (r_mref r).
+Proof. exact relinked_merged. Qed.
+Print Assumptions merge_relinked.
+
+(** One input: MergeHeaders returns the source header itself and nil links;
+    the records are returned as read — they already refer to the merged
+    header. *)
+Theorem merge_relinked_single_input :
+  forall lessf inp,
+    exists outs e mf,
+      run_merge goheap None lessf [inp] = Ok (outs, e, mf) /\
+      forall i r, In (i, r) outs -> i = 0 /\ In r (i_recs inp).
+Proof. exact relinked_single. Qed.
+Print Assumptions merge_relinked_single_input.
+
+(** The same fact for an arbitrary link table: every returned record is a
+    record of the input it is attributed to, passed through reassignReference
+    exactly once ... *)
+Theorem merge_relinked_any_links :
   forall links lessf ins,
     ins_ok links 0 ins ->
     exists outs e mf,
@@ -72,15 +114,11 @@ Theorem merge_relinked :
         exists j inp r0, i = Z.of_nat j /\ nth_error ins j = Some inp /\ In r0 (i_recs inp) /\
                          reassign links i r0 = Ok r.
 Proof. exact relinked_gen. Qed.
-Print Assumptions merge_relinked.
+Print Assumptions merge_relinked_any_links.
 
 (** ... and reassignReference replaces the reference and the mate reference by
-    the merged header's reference the input's link table names (a nil
-    reference stays nil; with a single input the header is the source's own),
-    leaving every other field alone. That links[i][id] carries the source's
-    name is sam.MergeHeaders' part (C07, merge_links) and is checked on every
-    run by the oracle. *)
-Theorem merge_relinked_fields_partial :
+    the entry of the input's link table and leaves every other field alone. *)
+Theorem reassign_reference_fields :
   forall links i r r',
     reassign links i r = Ok r' ->
     r_uid r' = r_uid r /\ r_name r' = r_name r /\ r_pos r' = r_pos r /\ r_key r' = r_key r /\
@@ -91,7 +129,59 @@ Theorem merge_relinked_fields_partial :
       (if r_mref r <? 0 then r_mref r' = r_mref r else link_of ls i (r_mref r) = Ok (r_mref r'))
     end.
 Proof. exact reassign_fields. Qed.
-Print Assumptions merge_relinked_fields_partial.
+Print Assumptions reassign_reference_fields.
+
+(** NewMerger as a whole ([new_merger_full]: checks, header merge,
+    m.h.SortOrder = so, choice of less).  When it succeeds, all inputs declare
+    the merged header's sort order, the mode is the one that order selects, a
+    single input keeps its header (references, group order) and gets no link
+    table, several inputs get GroupOrder unspecified and a link table. *)
+Theorem newmerger_header :
+  forall pq code ins h links lessf m,
+    new_merger_full pq code ins = Ok (h, links, lessf, m) ->
+    exists first rest,
+      ins = first :: rest /\
+      so_agree (i_so first) ins = true /\
+      mh_so h = i_so first /\
+      lessf = pick_less (i_so first) code /\
+      new_merger pq links lessf ins = Ok m /\
+      match rest with
+      | [] => links = None /\ mh_refs h = i_refs first /\ mh_go h = i_go first
+      | _ => mh_go h = 0 /\ exists ls, links = Some ls
+      end.
+Proof. exact new_merger_full_spec. Qed.
+Print Assumptions newmerger_header.
+
+(** The four declared orders: unsorted (1) = concatenation; queryname (2) and
+    coordinate (3) = the two sam.Record methods; unknown (0, and any other
+    value) = the caller's less, concatenation when that is nil. *)
+Theorem merge_modes :
+  forall so code,
+    (so = 1 -> pick_less so code = None) /\
+    (so = 2 -> pick_less so code = Some less_by_name) /\
+    (so = 3 -> pick_less so code = Some less_by_coordinate) /\
+    (so <> 1 -> so <> 2 -> so <> 3 -> pick_less so code = custom_less code).
+Proof. exact pick_less_modes. Qed.
+Print Assumptions merge_modes.
+
+(** The whole statement for the merger NewMerger builds: loss-free, stable,
+    errors reported ([merge_result]); concatenation when the declared order
+    selects no less; sorted in the declared order ([declared_le]: name /
+    merged-header coordinate / the custom order) when every input is. *)
+Theorem merge_by_declared_order :
+  forall code ins h links lessf m,
+    new_merger_full goheap code ins = Ok (h, links, lessf, m) ->
+    ins_ok links 0 ins ->
+    exists outs e mf,
+      drain goheap links lessf (S (total_recs ins)) m = (outs, e, mf) /\
+      merge_result links ins outs e /\
+      so_agree (mh_so h) ins = true /\
+      lessf = pick_less (mh_so h) code /\
+      (lessf = None -> exists rest, tagged links 0 ins = outs ++ rest) /\
+      (lessf <> None -> ins_sorted links (declared_le (mh_so h) code) 0 ins ->
+       StronglySorted (declared_le (mh_so h) code) (map snd outs)).
+Proof. exact full_merge. Qed.
+Print Assumptions merge_by_declared_order.
 
 (** Unsorted (or unknown order without less) means concatenation: the output is
     the inputs one after the other, cut after the first failing input. *)
@@ -180,8 +270,8 @@ Print Assumptions less_by_name_is_name_order.
     chrA (ids 0, 1) and a third, failing one; links as MergeHeaders returns. *)
 Example merge_example :
   let r u ref pos mref := mkRec u [97] ref pos mref 0 in
-  let ins := [mkInput [([66], 9); ([65], 9)] 3 [r 1 0 5 1; r 2 1 3 (-1)] false;
-              mkInput [([65], 9); ([66], 9)] 3 [r 101 1 1 0; r 102 0 2 0; r 103 (-1) 0 (-1)] false] in
+  let ins := [mkInput [([66], 9); ([65], 9)] 3 [r 1 0 5 1; r 2 1 3 (-1)] false 0;
+              mkInput [([65], 9); ([66], 9)] 3 [r 101 1 1 0; r 102 0 2 0; r 103 (-1) 0 (-1)] false 0] in
   let links := Some [[0; 1]; [1; 0]] in
   ins_ok links 0 ins /\ ins_sorted links le_coord 0 ins /\
   match run_merge goheap links (Some less_by_coordinate) ins with
@@ -196,9 +286,26 @@ Proof.
   - vm_compute. split; reflexivity.
 Qed.
 
+(** Non-vacuity of merge_relinked: the same two headers built in the header
+    model of C07 (references B, A and A, B); MergeHeaders succeeds and the ids
+    behind the links it returns are the table used above. *)
+Example merge_relinked_example :
+  let none := fun _ : str => @None str in
+  match c07_exec none none world0 env0
+          [ONewRef [66] 9 [] [] [] []; ONewRef [65] 9 [] [] [] []; ONewRef [65] 9 [] [] [] []; ONewRef [66] 9 [] [] [] [];
+           ONewHdr None [0; 1]; ONewHdr None [2; 3]] with
+  | Ok (w, _) =>
+    match Header.merge_headers w 0%nat [1%nat] with
+    | Ok (w', c, hl) => c = 0 /\ links_of w' hl = [[0; 1]; [1; 0]] /\ length (w_h w) = 2%nat
+    | _ => False
+    end
+  | _ => False
+  end.
+Proof. vm_compute. repeat split; reflexivity. Qed.
+
 Example merge_example_failing_input :
   let r u := mkRec u [97] (-1) 0 (-1) 0 in
-  match run_merge goheap None (Some less_by_name) [mkInput [] 2 [r 1; r 2] true] with
+  match run_merge goheap None (Some less_by_name) [mkInput [] 2 [r 1; r 2] true 0] with
   | Ok (outs, e, _) => map (fun o => r_uid (snd o)) outs = [1; 2] /\ e = 1
   | _ => False
   end.
